@@ -18,8 +18,11 @@ def main():
         from . import esym_units
         return esym_units.replay(rp)
     if eng == "E-TS":
-        from .ets import replay as r
-        return r.replay_file(rp)
+        if rp.get("model") == "M_exec":
+            from .ets import units_exec
+            return units_exec.replay_file(rp)
+        from .ets import units_cond
+        return units_cond.replay_file(rp)
     print("unknown engine", eng)
     return 2
 
